@@ -6,7 +6,10 @@ per-rank (recv_count, send_count) operands of the last barrier reduction are com
 Tie (2) concurrency: generated programs with several broadcasts / mcasts / point-to-point asyncs from different
 origins, also issued from inside handlers, 3 routings x buffer 0/default x 5 scheduler policies x sim seeds;
 oracle: at every barrier each rank has executed each broadcast uid exactly once and each mcast uid exactly as often
-as it is listed; correspondence: the model's per-rank ledger equals the operands of the final barrier reduction."""
+as it is listed; correspondence: the model's per-rank ledger equals the operands of the final barrier reduction.
+Tie (3) several communicators: world N x p plus a sub-communicator of another layout (split by local-id parity, local
+half, node parity) in one process, the SAME handler type broadcast from every origin of each, in both orders; oracle:
+every member executes each broadcast of its communicator exactly once."""
 import random
 from lib import common as C
 
@@ -459,8 +462,57 @@ def run(tier, seed, model_ok=True):
     for (cfg, ops), sr, MM in zip(cfgs, outs, CMs):
         guarded(res, dict({k: cfg[k] for k in ("N", "p", "routing", "buffer_kb", "policy", "sim_seed", "script")}, kind="conc"),
                 check_conc, res, cfg, sr, ops, CB, MM, model_ok)
+    # ---- (3) several communicators with different layouts in one process, one handler type
+    sjobs = sub_jobs(tier)
+    for j, sr in zip(sjobs, C.pmap(lambda j: run_sub(binary, j, seed), sjobs)):
+        guarded(res, dict(j, kind="sub"), check_sub, res, j, sr)
+    res.notes.append(f"{len(sjobs)} sub-communicator jobs")
     res.notes.append(f"{len(lays)} layouts, {len(jobs)} single-broadcast jobs, {len(cfgs)} concurrent programs, seed {seed}")
     return res
+
+
+def sub_jobs(tier):
+    lays = [(2, 4), (3, 2), (2, 2), (4, 2), (2, 6)] if tier == "quick" else [(2, 4), (3, 2), (2, 2), (4, 2), (2, 6), (3, 4), (4, 4), (5, 2), (6, 2), (2, 8), (1, 4)]
+    jobs = []
+    for (N, p) in lays:
+        for split in (0, 1, 2):
+            for order in (0, 1):
+                for sch in (SCHEMES if tier != "quick" else [SCHEMES[(N + p + split + order) % 3]]):
+                    jobs.append({"N": N, "p": p, "split": split, "order": order, "scheme": sch})
+    return jobs
+
+
+def run_sub(binary, j, seed):
+    return C.run_sim(binary, ["subbcast", j["split"], j["order"]], nodes=j["N"], ppn=j["p"], env={"YGM_COMM_ROUTING": j["scheme"]},
+                     sim_seed=seed, want_log=False, timeout=600)
+
+
+def check_sub(res, j, sr):
+    """every member of a communicator executes every broadcast issued on THAT communicator exactly once, whatever other
+    communicators (of other layouts) the process also uses with the same handler type"""
+    res.evaluations += 1
+    if sr.verdict != "ok":
+        res.oracle_failures.append({"what": f"sub-communicator broadcast run did not finish: {sr.verdict} {sr.blocked[:200]}",
+                                    "signature": f"sub-bcast-run-{sr.verdict.split(':')[0]}", "case": dict(j, kind="sub", stderr=sr.stderr[-300:])})
+        return
+    nlines = 0
+    for r, lines in sr.outs.items():
+        for line in lines:
+            w = line.split()
+            if not w or w[0] != "hits":
+                continue
+            nlines += 1
+            counts = [int(x) for x in line.split(":")[1].split()]
+            bad = [(o, c) for o, c in enumerate(counts) if c != 1]
+            if bad:
+                res.oracle_failures.append({"what": f"world rank {r} (rank {w[4]} of a {w[2]}x{w[3]} communicator, phase {w[1]}) executed the broadcast of origin {bad[0][0]} {bad[0][1]} times, expected 1 "
+                                                    f"(world {j['N']}x{j['p']}, split {j['split']}, order {j['order']}, {j['scheme']})",
+                                            "signature": "sub-bcast-count", "case": dict(j, kind="sub")})
+                return
+    if nlines != 3 * j["N"] * j["p"]:
+        res.corr_failures.append({"relation": "every rank reports three broadcast phases", "what": f"{nlines} lines", "case": dict(j, kind="sub")})
+        return
+    res.distinct.add(("sub", j["N"], j["p"], j["split"], j["order"], j["scheme"]))
 
 
 def replay(data):
@@ -481,6 +533,11 @@ def replay(data):
         sr = run_conc(binary, cfg)
         print("verdict", sr.verdict, sr.stderr[-300:])
         check_conc(res, cfg, sr, ops, CB, CMs[0], True)
+    elif case.get("kind") == "sub":
+        j = {k: case[k] for k in ("N", "p", "split", "order", "scheme")}
+        sr = run_sub(binary, j, data.get("seed", 1))
+        print("verdict", sr.verdict, sr.stderr[-300:])
+        check_sub(res, j, sr)
     else:
         lo = case.get("origin", case.get("lo", 0))
         MB = model_bcasts([(N, p, lo)])
